@@ -45,7 +45,9 @@ def check_fold(ctx, repo: Repo, pid: str):
     from ..astutil import splice_self_calls, helper_closure
     from ..model import FunctionInfo, set_parents
     helpers_ = sorted(helper_closure(ci, ["_calculate_N_N_array"]) - {"_calculate_N_N_array", "_get_upper_indices"})
-    if helpers_:
+    mod_helpers_ = [c_.func.id for c_ in ast.walk(fi.node) if isinstance(c_, ast.Call) and isinstance(c_.func, ast.Name) and
+                    c_.func.id.startswith("_") and ci.module.functions.get(c_.func.id) is not None]
+    if helpers_ or mod_helpers_:
         class _CI:
             """class view in which only the exclusively-owned helpers are spliceable"""
             name = ci.name
@@ -53,7 +55,9 @@ def check_fold(ctx, repo: Repo, pid: str):
             @staticmethod
             def find_method(n_):
                 return ci.find_method(n_) if n_ in helpers_ else None
-        spliced_ = splice_self_calls(_CI, fi.node)
+        spliced_ = splice_self_calls(_CI, fi.node, module=ci.module)
+        for h_ in mod_helpers_:
+            ctx.analysed(ci.module.functions[h_])
         set_parents(spliced_)
         for h_ in helpers_:
             if ci.find_method(h_) is not None:
